@@ -51,8 +51,9 @@ ASSUME_BLOCK = [
 
 PROPS["C01"] = dict(
     module="Proofs.Properties.C01",
-    extra_modules=["Proofs.Properties.RegenPreds", "Proofs.Properties.BlockLimits"],   # validator predicates regenerated from the Go source = the specification's (go2lean, tie R-fun)
+    extra_modules=["Proofs.Properties.StageOrder", "Proofs.Properties.RegenPreds", "Proofs.Properties.BlockLimits"],   # validator predicates regenerated from the Go source = the specification's (go2lean, tie R-fun)
     theorems=[
+        "Zrnt.Proofs.StageOrder.block_stages_are_the_specs",
         "Zrnt.Proofs.BlockLimits.check_limits_are_the_specs", "Zrnt.Proofs.BlockLimits.limits_name_their_own_field",
         "Zrnt.Proofs.RegenPreds.isSlashable_eq", "Zrnt.Proofs.RegenPreds.isFullyWithdrawable_eq", "Zrnt.Proofs.RegenPreds.isPartiallyWithdrawable_eq",
         "Zrnt.Proofs.C01.zigzag_eq_sorted_inter",
